@@ -118,6 +118,8 @@ def relevant(mod, toks):
                 if n["k"] == "MemberExpr" and n.get("qn") and "::" in n["qn"]:
                     c, f = n["qn"].rsplit("::", 1)
                     mem.add((c, f))
+                    # (anonymous unions / structs: the extractor names the record `Outer::(anonymous)`)
+                    mem.add((re.sub(r"\(anonymous[^)]*\)", "(anonymous)", c), f))
                 if n["k"] == "DeclRefExpr" and n.get("global") and n.get("name") in prog.globals:
                     glo.add(n["name"])
             for c in g.calls():
